@@ -70,6 +70,9 @@ def corpus(tier):
     # argument names that collide with identifiers the generated glue uses internally
     svc('Shadow', [m('forward', [('context', 'tarpc::context::Context'), ('n', 'u8')], 'u64'), m('names', [('request', 'u8'), ('req', 'u16'), ('resp', 'u32'), ('msg', 'u64')], 'u64'),
                    m('more', [('stub', 'u8'), ('service', 'u16'), ('result', 'u32'), ('new_client', 'u64')], 'u64')])
+    # optional arguments and results: the wire form of a request must not depend on the argument values (positional codecs)
+    svc('Opt', [m('find', [('query', 'Option<String>'), ('page', 'u32')], 'Option<String>'), m('tags', [('a', 'Option<u8>'), ('b', 'std::option::Option<u16>'), ('c', 'Vec<u8>')], 'Vec<u8>'),
+                m('last', [('only', 'Option<bool>')])])
     svc('Six', [m('m%d' % i, [('p%d' % j, 'u32') for j in range(i % 5)], 'u32') for i in range(6)])
     if tier == 'thorough':
         tys = ['u8', 'String', 'bool', 'Vec<u8>']
@@ -146,6 +149,39 @@ def validate(R, F, P, idx, s):
         want = [(unraw(a[0]), a[1]) for a in me['args']]
         okf = [g[0] for g in got] == [w[0] for w in want] and all(g[1].split('::')[-1].replace(' ', '') == w[1].split('::')[-1].replace(' ', '') or _ty_eq(g[1], w[1]) for g, w in zip(got, want))
         R.ob('C17.enum', key('request fields', me), okf, 'variant fields are the method\'s arguments, by name and type, in order', [], 'got %s want %s' % (got, want))
+    # ---- wire form: the derived serializers of the generated enums always write every field (a field left out for some argument value — skip_serializing_if —
+    # mis-aligns every positional codec: the server decodes the next argument's bytes in its place and the method is never invoked)
+    serde_on = 'derive_serde = false' not in s['attr'] and 'derive =' not in s['attr']
+    for en, adt_ in (('%sRequest' % svc, req), ('%sResponse' % svc, resp)):
+        ims = [im for im in F.trait_impls('Serialize') if (im.get('self_head') or '').endswith('%s::%s' % (mod, en))]
+        if not serde_on:
+            continue
+        okw, detw, lens = len(ims) == 1, [], []
+        for im in ims:
+            for name_, mid in im['methods']:
+                f_ = F.fns.get(mid)
+                if f_ is None or name_ != 'serialize':
+                    continue
+                for g in F.with_descendants(f_):
+                    for bb, t in g.calls():
+                        c = strip_generics(t.get('callee') or '')
+                        if c.endswith('::skip_field'):
+                            okw = False
+                            detw.append('skip_field')
+                        if c.endswith(('Serializer::serialize_struct_variant', 'Serializer::serialize_tuple_variant', 'Serializer::serialize_struct')):
+                            v_ = P.fold_int(P.operand(g, t['args'][-1], at=bb))
+                            lens.append(v_)
+                            if v_ is None:
+                                okw = False
+                                detw.append('field count computed at run time')
+        if en.endswith('Request'):
+            want_lens = sorted(len(me['args']) for me in live if me['args'])
+            got_lens = sorted(x for x in lens if x)
+            if None not in lens and got_lens != want_lens:
+                okw = False
+                detw.append('field counts %s, want %s' % (got_lens, want_lens))
+        R.ob('C17.wire', key('%s always writes every field' % en), okw,
+             'the serializer derived for the generated enum announces, per variant, a constant field count equal to the number of arguments and never skips a field', [], '; '.join(sorted(set(detw))))
     n = 0
     # ---- client methods
     for vi, me in enumerate(live):
@@ -284,7 +320,7 @@ def sb_param_ty(F, r):
 
 
 def _ty_eq(a, b):
-    norm = lambda t: t.replace('std::string::', '').replace('std::vec::', '').replace('alloc::string::', '').replace('alloc::vec::', '').replace(' ', '')
+    norm = lambda t: t.replace('std::string::', '').replace('std::vec::', '').replace('alloc::string::', '').replace('alloc::vec::', '').replace('std::option::', '').replace('core::option::', '').replace(' ', '')
     return norm(a) == norm(b)
 
 
